@@ -148,12 +148,71 @@ fn enumerate_small(rep: &mut Report, args: &Args, ev: &Evaluator, maxlen: u32) {
     rep.extra.insert("enumeration_alphabet".into(), json!(alpha.len()));
 }
 
+/// Ordering comparisons and ordering functions on numbers a few ulps apart. The
+/// specification orders JSON numbers by value; only `==` / `!=` are tolerant in
+/// this crate (C10 leaves those unasserted for such pairs), so `<`, `<=`, `>`, `>=`,
+/// sort, max, min and the *_by family must still see the difference.
+fn close_number_ordering(rep: &mut Report, args: &Args) {
+    if args.shard != 0 {
+        return;
+    }
+    let bases: [f64; 10] = [0.3, 1.0, 0.1, 1e15, 2.5, 1e-7, 123456.789, 1e300, 4.0, 1e-300];
+    for &b in &bases {
+        for sign in [1.0f64, -1.0] {
+            for k in [1u64, 2, 3, 50] {
+                let lo = sign * b;
+                let hi = sign * f64::from_bits(b.to_bits() + k);
+                let (lo, hi) = if lo < hi { (lo, hi) } else { (hi, lo) };
+                let doc = json!({"a": lo, "b": hi, "xs": [hi, lo, hi, lo], "recs": [{"id": "hi", "v": hi}, {"id": "lo", "v": lo}, {"id": "hi2", "v": hi}]});
+                // (operands come from the document, which is handed over as binary doubles: number
+                // *literals* go through serde_json's fast float parser, which is allowed to be an ulp off)
+                let cases: Vec<(String, Value)> = vec![
+                    ("a < b".into(), json!(true)),
+                    ("a <= b".into(), json!(true)),
+                    ("a > b".into(), json!(false)),
+                    ("a >= b".into(), json!(false)),
+                    ("b < a".into(), json!(false)),
+                    ("b <= a".into(), json!(false)),
+                    ("b > a".into(), json!(true)),
+                    ("b >= a".into(), json!(true)),
+                    ("recs[?v > v].id".into(), json!([])),
+                    ("recs[?v >= v].id".into(), json!(["hi", "lo", "hi2"])),
+                    ("sort(xs)".into(), json!([lo, lo, hi, hi])),
+                    ("max(xs)".into(), json!(hi)),
+                    ("min(xs)".into(), json!(lo)),
+                    ("sort_by(recs, &v)[*].id".into(), json!(["lo", "hi", "hi2"])),
+                    ("max_by(recs, &v).v".into(), json!(hi)),
+                    ("min_by(recs, &v).id".into(), json!("lo")),
+                ];
+                for (text, want) in cases {
+                    rep.evaluations += 1;
+                    let got = guarded(|| jmespath::compile(&text).and_then(|e| e.search(rcvar_of(&doc))));
+                    let ok = match &got {
+                        Ok(Ok(v)) => value_of(v).map_or(false, |g| refimpl::json::val_eq(&g, &want, 0.0)),
+                        _ => false,
+                    };
+                    if ok {
+                        rep.count("close_number_ordering_ok");
+                        rep.nontrivial(refimpl::rng::fnv(format!("{}|{}|{}", text, lo, hi).as_bytes()));
+                    } else {
+                        rep.violation(
+                            "C01/ordering-of-close-numbers",
+                            json!({"expression": text, "document": doc, "expected": want, "got": format!("{:?}", got.map(|r| r.map(|v| v.to_string()).map_err(|e| e.to_string())))}),
+                        );
+                    }
+                }
+            }
+        }
+    }
+}
+
 pub fn run(args: &Args) {
     let mut rep = Report::new("C01");
     let strict = Opts::strict();
     let ev = Evaluator::new(&Builtins);
     let maxlen: u32 = args.kv.get("enum-len").and_then(|v| v.parse().ok()).unwrap_or(3);
     enumerate_small(&mut rep, args, &ev, maxlen);
+    close_number_ordering(&mut rep, args);
     let cdocs = crate::refcheck::compliance_docs();
     for i in 0..args.n {
         let mut rng = Rng::derive(args.seed, args.shard, i);
